@@ -35,6 +35,7 @@ class Trace:
         self.reqs = {}         # id -> dict(kind, blocking, nfrags, timeout, body(hex of HL bytes), started_step)
         self.writes = []       # (step, id, frag index, raw bytes)
         self.raised = []
+        self.rsp_at = {}       # step -> (command key, number of response frames delivered in that step)
         self.merge = set()     # token indices whose model step is merged into the previous one (same real step)
 
 
@@ -105,6 +106,7 @@ def run_schedule(r, sched, drain=True, max_live=3):
                 Rsp, kw = tr.reqs[rid]["rsp"]
                 tr.tokens.append("R:%d" % hostworld.KEY[tr.reqs[rid]["kind"]])
                 w.rx(hostworld.rsp_bytes(Rsp, rid, int(x * 4) % 4, **kw))
+                tr.rsp_at[len(tr.steps)] = (hostworld.KEY[tr.reqs[rid]["kind"]], 1)
                 record("rsp", m)
             elif ev == "rsp2":
                 # two responses for the same command inside ONE read (one data_received call)
@@ -118,6 +120,7 @@ def run_schedule(r, sched, drain=True, max_live=3):
                 tr.tokens.append("R:%d" % key)
                 tr.merge.add(len(tr.tokens) - 1)
                 w.rx(hostworld.rsp_bytes(Rsp, rid, 1, **kw) + hostworld.rsp_bytes(Rsp, rid, 2, **kw))
+                tr.rsp_at[len(tr.steps)] = (key, 2)
                 record("rsp2", m)
             elif ev == "tick":
                 tr.tokens.append("T")
@@ -279,7 +282,30 @@ def monitor_c13(ctx, tr):
             return
     if not tr.final_live and tr.final_listeners:
         ctx.counterexample("listener-residue", inp, 0, tr.final_listeners, "listeners remain after every request has finished")
-    # a returned response belongs to the request's own command: checked by the model comparison (RET attribution)
+    # "the next request for the same command receives its own response": a request that timed out although more
+    # responses for its command arrived while it was surely waiting (from its first write to its end) than there
+    # were earlier requests for that command still running (each of which can take one) was robbed of its response
+    first_write, ended = {}, {}
+    for (s, rid, k, raw) in tr.writes:
+        first_write.setdefault(rid, s)
+    for s, st in enumerate(tr.steps):
+        for e in st:
+            if e.startswith("D"):
+                ended[int(e[1:].split("=")[0])] = (s, e.split("=")[1])
+    for rid, (s_end, how) in ended.items():
+        if how != "TimeoutError" or rid not in first_write:
+            continue
+        key = hostworld.KEY[tr.reqs[rid]["kind"]]
+        s0 = first_write[rid]
+        n_rsp = sum(n for s, (k, n) in tr.rsp_at.items() if k == key and s0 < s <= s_end)
+        absorbers = [o for o in tr.reqs if o < rid and hostworld.KEY[tr.reqs[o]["kind"]] == key
+                     and (o not in ended or ended[o][0] > s0)]
+        if n_rsp > len(absorbers):
+            ctx.counterexample("own-response-not-received", dict(inp, request=rid, first_write_step=s0, end_step=s_end),
+                               "request %d returns a response (%d responses for its command arrived while it waited, "
+                               "%d earlier requests could take one)" % (rid, n_rsp, len(absorbers)), "TimeoutError",
+                               "a request did not receive its own response although it arrived while the request was waiting")
+            return
 
 
 def monitor_c14(ctx, tr):
@@ -314,9 +340,12 @@ def monitor_c14(ctx, tr):
 def monitor_c20(ctx, tr):
     inp = dict(events=tr.tokens)
     closed_at = None
+    in_reset = False
     for s, (lab, st) in enumerate(zip(tr.labels, tr.steps)):
+        if lab.startswith("reset:"):
+            in_reset = lab.endswith("1")
         if lab == "close":
-            if "Z:1" in tr.tokens[:s + 1] and "Z:0" not in tr.tokens[:s + 1]:
+            if in_reset:
                 continue        # listeners are kept during a deliberate reset
             if closed_at is None:
                 closed_at = (s, tr.times[s])
@@ -330,6 +359,11 @@ def monitor_c20(ctx, tr):
     if closed_at is not None:
         s0, t0 = closed_at
         for s in range(s0, len(tr.steps)):
+            late = [e for e in tr.steps[s] if e.startswith("D") and tr.reqs[int(e[1:].split("=")[0])]["step"] <= s0]
+            if tr.times[s] > t0 + ACK_MS and late:
+                ctx.counterexample("stranded-after-close", dict(inp, step=s, closed_at_ms=t0), "all requests done by %d ms" % (t0 + ACK_MS),
+                                   dict(time=tr.times[s], ended=late), "a request in flight at close() ended only after the acknowledgement wait")
+                return
             if tr.times[s] > t0 + ACK_MS and any(i for i in tr.live[s] if tr.reqs[i]["step"] <= s0):
                 ctx.counterexample("stranded-after-close", dict(inp, step=s, closed_at_ms=t0), "all requests done by %d ms" % (t0 + ACK_MS),
                                    dict(time=tr.times[s], running=tr.live[s]), "a request in flight at close() is still running after the acknowledgement wait")
